@@ -283,13 +283,11 @@ def _eval_bool(body, du, operand, env, depth=6):
         # a named flag with one definition (let pipefail = ...)
         d = du.single_def(org['pl']['l'])
         if d is not None and d[1] == 't':
-            return _eval_bool(body, du, {'cp': {'l': d[2]['dest']['l']}}, env, depth - 1) if False else \
-                _eval_call(body, du, d[2], env)
+            return _eval_call(body, du, d[2], env)
     return None
 
 
 def _eval_call(body, du, t, env):
-    fake = {'k': 'call', 't': t}
     if Q.callee_is(t, ['yash_env::semantics::ExitStatus::is_successful']):
         return env['succ']
     if Q.callee_is(t, EQ + NE):
